@@ -230,7 +230,9 @@ def parser():
              ('{a_i}', a), ('[a_i]', 0 * a), ('{a_i + b_i} a_i', (a + b) @ a), ('[A_ij] + A_ji', A.T), ('2^2 a_i', 4 * a), ('2^(1 + 1) a_i', 4 * a), ('(a_i b_i)^2', (a @ b)**2), ('a_i^(b_j b_j)', a**(b @ b)), ('T_ij1', T[:, :, 1]), ('T_1i0', T[1, :, 0]), ('T_ij2 A_ij', (T[:, :, 2] * A).sum())]
     invalid = ['a_i + A_ij', 'A_ij + a_i', 'a_i + c_i', 'A_ij + C_ij', 'C_ij + A_ij', 'A_ij + A_ik', 'a_i a_i a_i', 'A_ii a_i', 'a_i A_ii', 'T_iii', 'a_i / b_j', 'a_i b_i / a_i', 's / s / s',
                'a_i a_i / b_i b_i', 'a_i / b_i b_i', '(a_i a_i) b_i', 'a_i (b_i b_i)', 'a_i^(b_i b_i)', 'x', 'a_ij', 'A_i', 'a_3', 'C_2i', 'a_A', 'a_i 2', '2 2 a_i', 'a_i + -b_i', 'a_i +b_i', 'a_i+ b_i', 'a_i+b_i', 'a_i -b_i',
-               'a_i/ s', 'a_i /s', '', ' ', '-', '(a_i', 'a_i)', '[a_i)', 'a_i (', '() a_i', 'a_i^b_j', 'a_i^2^2', 'a_i ^2', 'a_i^ 2', 'a_i^', '^2', 'a_i + ', ' + a_i', 'a_i - ', 'a_i / ', ' / s', 'a_i^x', 'f(a_i)', 'a_i c_i', 'a_i^(2)b', 'a_i^b(2)', 'a_i 2^2', 'a_i^(2', 'a_i^[2]', 'a_i^2 ^2', 'a_i^-', '<a_i>', 'a_i [', 'a[a_i]', 'a{a_i}', '(a_i]', '{a_i) b_i', '(a_i) b', '1.2.3', '.', 'A_i3', 'T_0i3', 'A_i-', 'A_iI']
+               'a_i/ s', 'a_i /s', '', ' ', '-', '(a_i', 'a_i)', '[a_i)', 'a_i (', '() a_i', 'a_i^b_j', 'a_i^2^2', 'a_i ^2', 'a_i^ 2', 'a_i^', '^2', 'a_i + ', ' + a_i', 'a_i - ', 'a_i / ', ' / s', 'a_i^x', 'f(a_i)', 'a_i c_i', 'a_i^(2)b', 'a_i^b(2)', 'a_i 2^2', 'a_i^(2', 'a_i^[2]', 'a_i^2 ^2', 'a_i^-', '<a_i>', 'a_i [', 'a[a_i]', 'a{a_i}', '(a_i]', '{a_i) b_i', '(a_i) b', '1.2.3', '.', 'A_i3', 'T_0i3', 'A_i-', 'A_iI',
+               # an index summed inside a NON-FIRST term of a sum in a scope and used once more outside the scope (third use)
+               '(a_i + A_jj b_i) b_j', '(s + A_jj) A_jj', 'a_j / (s + A_jj)', 'a_j^(s + A_jj)', '{s + A_jj} b_j', '(A_jj b_i + a_i) b_j', '(a_i - A_ij b_j) b_j']
     for expr, want in valid:
         try:
             got = numpy.asarray((expr @ ns).eval())
